@@ -7,6 +7,18 @@ nested, with and without scale; explicit scale 1 vs unscaled; legacy tuple synta
 vs a bare tuple of objects), and `get_mev_generating_for_nested` is differentiated numerically in
 `y_i = exp V_i` and compared with `exp` of the terms of `get_mev_for_nested`.  Values of the
 generating function and of the `ln G_i` are also compared with the Lean model (Driver/C06.lean).
+
+Input shapes beyond the plain ones:
+* availability indicators that are counts (0/1/2/3/5: "number of vehicles"), non-zero = available,
+  on every relation inside the nested-logit family and against logit (the cross-nested code
+  multiplies by the value: its reductions are stated for 0/1 indicators only);
+* cross-nested memberships written as a *table*: a nest lists alternatives that do not belong to
+  it with the constant alpha 0.0 — the full table (every nest lists every alternative, an
+  alternative outside every nest has alpha 0.0 everywhere) or only some of the zeros;
+* rows on which an unavailable member of a nest carries the missing-value code 99999 in its
+  attributes (the engine refuses to read such a value): the unavailable alternative must simply be
+  ignored by every member of the nested family.  One engine exception poisons the interpreter, so
+  this stream runs in fresh interpreters (`iso_worker`), both evaluation orders when a side raises.
 """
 
 from __future__ import annotations
@@ -18,7 +30,7 @@ from lib import core
 from lib.core import Result, f2b, b2f
 from props import c05
 from props.c05 import (
-    dyadic, gen_case, gen_nested_nests, gen_param, is_close, mk_av, mk_database, mk_nests, mk_util,
+    av_value, dyadic, gen_case, gen_nested_nests, gen_param, is_close, mk_av, mk_database, mk_nests, mk_util,
     model_requests, real_values, row_view, _quiet,
 )
 
@@ -26,34 +38,48 @@ READY = True
 MANIFEST = dict(
     text='Proof (Lean 4, over the reals, same definitions as the Float driver): nested logit with all mu_m = 1 equals logit; a cross-nested logit whose '
     'alternatives each belong to one nest only equals the nested logit on V_i + log(alpha_i) (alpha = 1: the degenerate case of the property), with and without explicit scale '
-    '(disjoint nests, 0/1 availabilities); explicit scale 1 equals the unscaled nested / cross-nested model; legacy tuple syntax converts to the same validated nest object as nest '
+    '(disjoint nests, 0/1 availabilities); memberships written as a table (zero entries added to the nests, an alternative outside every nest listed with alpha 0 everywhere) give '
+    'the same cross-nested probabilities as the memberships without the zeros, with and without explicit scale, hence the full-table degenerate cross-nested logit is the nested logit; '
+    'explicit scale 1 equals the unscaled nested / cross-nested model (alternatives of zero membership included); legacy tuple syntax converts to the same validated nest object as nest '
     'objects (same ln G_i, probabilities, errors); check_partition accepts only pairwise disjoint nests that do not meet the alone alternatives; the expression of '
     'get_mev_generating_for_nested is G(exp V) and HasDerivAt (fun t => G (update y i t)) (exp (ln G_i)) (y i) at y = exp V for every alternative that is alone or an available '
-    'member of a nest (availability-conditioned nest sums, alone alternatives contribute y_i). '
-    'Tie: pairs of real model functions compared with each other on generated configurations, numerical gradient of the real generating function against the real ln G_i, '
-    'Euler relation P_i = y_i G_i / G on the three real functions (validated only), values compared with the Lean model.',
+    'member of a nest (availability-conditioned nest sums: any non-zero indicator, alone alternatives contribute y_i). '
+    'Tie: pairs of real model functions compared with each other on generated configurations (count-valued availability indicators, membership tables with zeros, missing-value codes on '
+    'unavailable members of a nest), numerical gradient of the real generating function against the real ln G_i, '
+    'Euler relation P_i = y_i G_i / G on the three real functions, values compared with the Lean model.',
     design='DESIGN.md §5 C06',
     technique='Lean 4 theorems (Mathlib HasDerivAt, rpow) over an executable semantic model + differential correspondence between pairs of real model functions and with the model',
     note='Trusted: real vs IEEE arithmetic, engine evaluation. A nest that lists the same alternative twice is not refused by check_partition (hypothesis Nodup of the theorems). '
-    'F07 (alone alternatives contributed V_i instead of exp V_i to the generating function) is fixed in the repository and re-checked on every run. '
-    'The published generating function keeps y_i of an unavailable alone alternative (the kernel ignores it): the Euler relation is checked on rows without such an alternative.',
+    'F07 (alone alternatives contributed V_i instead of exp V_i to the generating function) and F-C06-1 (cnlmu gave probability 0 to an alternative of zero membership) are fixed in the '
+    'repository and re-checked on every run. '
+    'The published generating function keeps y_i of an unavailable alone alternative (the kernel ignores it): the Euler relation is checked on rows without such an alternative. '
+    'Observations (not findings): the cross-nested code multiplies by the availability value, so (a) an indicator 2 weights the term (reductions stated for 0/1 indicators) and (b) the '
+    'utilities of unavailable alternatives are read: a missing-value code 99999 on an unavailable alternative makes cnl/cnlmu raise where nested and logit ignore it; '
+    'cnlmu recognises a zero membership only when it is written as a constant (a Beta of value 0 in every nest gives probability 0, cnl treats it as alone): '
+    'the membership tables of the streams write the zeros of an alternative outside every nest as constants.',
 )
 TRUSTED = [
     'real arithmetic vs IEEE doubles (comparison tolerance 1e-9; numerical gradient by central differences, tolerance 1e-6)',
     'cythonbiogeme evaluates the expression trees built by biogeme.models.*',
 ]
 ASSUMPTIONS = [
-    'reductions: nest parameters != 0, availabilities in {0,1} (the cross-nested code multiplies by the availability value), nests without repeated members',
+    'reductions of the cross-nested logit: nest parameters != 0, availabilities in {0,1} (the cross-nested code multiplies by the availability value), nests without repeated members, '
+    'the zero memberships of an alternative outside every nest are constants',
+    'inside the nested family and against logit: any availability indicator (non-zero = available)',
     'generating function: alternative alone or available member of exactly one nest (check_partition), y_i = exp V_i > 0',
 ]
 RULE = (
-    'a configuration = relation x alternatives (2-7, non-contiguous labels) x utilities x availability x nest structure; non-trivial = a nest with >= 2 members '
-    'or an unavailable alternative or an alone alternative'
+    'a configuration = relation x alternatives (2-7, non-contiguous labels) x utilities x availability (None, 0/1, counts) x nest structure (members only, table with zeros); '
+    'non-trivial = a nest with >= 2 members or an unavailable alternative or an alone alternative'
 )
 
 TOL = 1e-9
 GRAD_TOL = 2e-6
+EPS = 1e-5
+MISSING = 99999.0
 W_GEN = 'models.get_mev_generating_for_nested vs get_mev_for_nested'
+W_EULER = 'models.nested vs get_mev_for_nested and get_mev_generating_for_nested'
+W_MISSING = 'nested family on rows where an unavailable member of a nest carries the missing-value code'
 
 
 def safe_exp(x):
@@ -70,7 +96,7 @@ def nontrivial(case):
     if n:
         inn = set()
         for m in n['list']:
-            mem = m['alts'] if 'alts' in m else [t[0] for t in m['alphas']]
+            mem = m['alts'] if 'alts' in m else [t[0] for t in m['alphas'] if t[1] != 0]
             if len(mem) >= 2:
                 return True
             inn |= set(mem)
@@ -79,8 +105,69 @@ def nontrivial(case):
     return False
 
 
-def compare_pair(res, what, case_a, case_b, where, log_too=True):
-    """real(case_a) == real(case_b), probabilities and log probabilities, every alternative/row"""
+# --------------------------------------------------------------------------- input shapes
+
+AV_VALUES = (1, 1, 2, 3, 5)
+
+
+def widen_av(rng, case, p=0.5):
+    """availability indicators that are counts (number of vehicles, of departures…): an alternative
+    is available when its indicator is not zero.  Only for relations inside the nested family and
+    against logit (cnl multiplies by the value)."""
+    if case.get('av') is None or rng.random() >= p:
+        return case
+    for s in case['av']:
+        if s['k'] == 'num':
+            if s['v'] != 0:
+                s['v'] = rng.choice(AV_VALUES)
+        else:
+            s['vals'] = [x if x == 0 else rng.choice(AV_VALUES) for x in s['vals']]
+    case['av_counts'] = True
+    return case
+
+
+def gen_nested(rng, fam, **kw):
+    return widen_av(rng, gen_case(rng, fam, **kw))
+
+
+def pad_zero(rng, cnl_case, full):
+    """write the memberships as a table: a nest also lists alternatives that do not belong to it,
+    with alpha 0.0 (`full`: every nest lists every alternative — the convention of the Swissmetro
+    cross-nested examples; otherwise some of the zeros).  The zeros of an alternative that belongs
+    to no nest at all are constants (structural zeros); the others may be fixed parameters."""
+    n = cnl_case['nests']
+    positive = {t[0] for m in n['list'] for t in m['alphas'] if t[1] != 0}
+    for m in n['list']:
+        have = {t[0] for t in m['alphas']}
+        for a in cnl_case['alts']:
+            if a in have:
+                continue
+            if full or rng.random() < 0.5:
+                form = rng.choice(['num', 'num', 'beta']) if a in positive else 'num'
+                m['alphas'].insert(rng.randint(0, len(m['alphas'])), [a, 0.0, form])
+    n['table'] = 'full' if full else 'some zeros'
+    return cnl_case
+
+
+def maybe_table(rng, cnl_case):
+    u = rng.random()
+    if u < 0.4:
+        return pad_zero(rng, cnl_case, True)
+    if u < 0.6:
+        return pad_zero(rng, cnl_case, False)
+    return cnl_case
+
+
+def table_of(case):
+    return (case.get('nests') or {}).get('table', 'members only')
+
+
+# --------------------------------------------------------------------------- comparing two real functions
+
+
+def compare_pair(res, what, case_a, case_b, where, log_too=True, keep=None):
+    """real(case_a) == real(case_b), probabilities and log probabilities, every alternative/row.
+    `keep` receives the values of side a: keep[log] = {alt: [per row]}"""
     for log in ([False, True] if log_too else [False]):
         ra = real_values(case_a, log=log)
         rb = real_values(case_b, log=log)
@@ -89,6 +176,8 @@ def compare_pair(res, what, case_a, case_b, where, log_too=True):
                 res.violate(f'{what}: one side raises ({ra.get("msg")}) / ({rb.get("msg")})', {'a': case_a, 'b': case_b},
                             ra.get('msg', 'ok'), rb.get('msg', 'ok'), where=where)
             return None
+        if keep is not None:
+            keep[log] = ra['ok']
         for alt in case_a['alts']:
             for r in range(case_a['rows']):
                 x, y = ra['ok'][alt][r], rb['ok'][alt][r]
@@ -118,11 +207,24 @@ def model_pair(ctx, res, what, case_a, case_b, where):
     ctx.batch.add_many(ra + rb, cb)
 
 
+def correspond(ctx, res, case, keep):
+    """the Lean model against the real values of `case` (probabilities and log probabilities)"""
+    if False not in keep or True not in keep:
+        return
+    p, lp = keep[False], keep[True]
+    res.tally(f'model vs real code ({case["family"]}, {table_of(case)})')
+
+    def cb(ans, case=case, p=p, lp=lp):
+        c05.compare_model(res, case, ans, p, lp)
+
+    ctx.batch.add_many(model_requests(case), cb)
+
+
 # --------------------------------------------------------------------------- relations
 
 
 def rel_mu_one(ctx, res, rng):
-    case = gen_case(rng, 'nested')
+    case = gen_nested(rng, 'nested')
     case['nests'] = gen_nested_nests(rng, case['alts'], all_one=True)
     logit = {k: v for k, v in case.items() if k != 'nests'}
     logit['family'] = 'logit'
@@ -146,12 +248,15 @@ def rel_cnl_degenerate(ctx, res, rng):
     scaled = rng.random() < 0.4
     fam = 'nestedmu' if scaled else 'nested'
     case = gen_case(rng, fam)
-    cnl = to_degenerate_cnl(rng, case, 'cnlmu' if scaled else 'cnl')
-    res.count({'rel': 'cnl_degenerate', 'case': case}, nontrivial=nontrivial(case))
-    res.tally('cnl(alpha=1, one nest each) = nested' + (' (with mu)' if scaled else ''))
+    cnl = maybe_table(rng, to_degenerate_cnl(rng, case, 'cnlmu' if scaled else 'cnl'))
+    res.count({'rel': 'cnl_degenerate', 'case': cnl}, nontrivial=nontrivial(case))
+    res.tally('cnl(alpha=1, one nest each) = nested' + (' (with mu)' if scaled else '') + f', {table_of(cnl)}')
     w = 'models.cnl (each alternative wholly in one nest) vs models.nested'
-    compare_pair(res, 'cross-nested logit with every alternative wholly in one nest vs nested logit', cnl, case, w)
+    keep = {}
+    compare_pair(res, f'cross-nested logit with every alternative wholly in one nest ({table_of(cnl)}) vs nested logit', cnl, case, w, keep=keep)
     model_pair(ctx, res, 'degenerate cnl = nested', cnl, case, w)
+    if table_of(cnl) != 'members only':
+        correspond(ctx, res, cnl, keep)
 
 
 def rel_cnl_single_nest(ctx, res, rng):
@@ -167,74 +272,77 @@ def rel_cnl_single_nest(ctx, res, rng):
     cnl['family'] = 'cnlmu' if scaled else 'cnl'
     cnl['nests']['list'] = [{'mu': m['mu'], 'alphas': [[a, alpha[a], rng.choice(['num', 'beta'])] for a in m['alts']]}
                             for m in case['nests']['list']]
+    maybe_table(rng, cnl)
     in_nest = {a for m in case['nests']['list'] for a in m['alts']}
     nested = copy.deepcopy(case)
     nested['util'] = [u if a not in in_nest else {'k': 'sum', 'of': u, 'c': math.log(alpha[a]) / mu}
                       for a, u in zip(case['alts'], case['util'])]
     res.count({'rel': 'cnl_single_nest', 'case': cnl}, nontrivial=nontrivial(case))
-    res.tally('cnl(one nest each, alpha_i) = nested(V + log alpha)' + (' (with mu)' if scaled else ''))
+    res.tally('cnl(one nest each, alpha_i) = nested(V + log alpha)' + (' (with mu)' if scaled else '') + f', {table_of(cnl)}')
     w = 'models.cnl (each alternative in one nest, alpha != 1) vs models.nested on V + log(alpha)'
-    compare_pair(res, 'cross-nested logit with every alternative in a single nest vs nested logit on V + log(alpha)/mu', cnl, nested, w)
+    compare_pair(res, f'cross-nested logit with every alternative in a single nest ({table_of(cnl)}) vs nested logit on V + log(alpha)/mu', cnl, nested, w)
     model_pair(ctx, res, 'single-nest cnl = nested(V + log alpha)', cnl, nested, w)
 
 
-def rel_euler(ctx, res, rng):
-    """the three published pieces of the nested logit agree: P_i = y_i exp(ln G_i) / G(y)
-    (Euler: G is homogeneous of degree one); rows where an alone alternative is unavailable are
-    skipped (the published G keeps its y_i)"""
-    case = gen_case(rng, 'nested')
-    res.count({'rel': 'euler', 'case': case}, nontrivial=nontrivial(case))
-    res.tally('nested = y_i G_i / G')
-    w = 'models.nested vs get_mev_for_nested and get_mev_generating_for_nested'
-    rp = real_values(case)
-    g = real_generating(case)
-    lg = real_log_gi(case)
-    if 'err' in rp or 'err' in g or 'err' in lg:
-        res.violate(f'a nested-logit function raises on a valid specification: {rp.get("msg") or g.get("msg") or lg.get("msg")}', case,
-                    rp.get('msg') or g.get('msg') or lg.get('msg'), 'values', where=w)
-        return
+def euler_compare(res, case, p, g, lg, alts=None):
+    """P_i = y_i exp(ln G_i) / G(y) on the real values; rows where an alone alternative is
+    unavailable are skipped (the published G keeps its y_i)"""
     in_nest = {a for m in case['nests']['list'] for a in m['alts']}
     for r in range(case['rows']):
         V, av = row_view(case, r)
         if av is not None and any(x == 0 and a not in in_nest for a, x in zip(case['alts'], av)):
             continue
         for i, a in enumerate(case['alts']):
-            if av is not None and av[i] == 0:
+            if (alts is not None and a not in alts) or (av is not None and av[i] == 0):
                 continue
-            gv = g['ok'][r]
-            if not (math.isfinite(gv) and gv > 0) or not math.isfinite(lg['ok'][a][r]):
+            gv = g[r]
+            if not (math.isfinite(gv) and gv > 0) or not math.isfinite(lg[a][r]):
                 res.violate(f'row {r}: the published generating function / ln G_{a} is not a positive finite number', {**case, 'alternative': a},
-                            {'G': gv, 'lnG': lg['ok'][a][r]}, 'G > 0, ln G_i finite', where=w)
-                return
-            exp = safe_exp(V[i] + lg['ok'][a][r]) / gv
-            if not is_close(rp['ok'][a][r], exp, TOL):
+                            {'G': gv, 'lnG': lg[a][r]}, 'G > 0, ln G_i finite', where=W_EULER)
+                return False
+            exp = safe_exp(V[i] + lg[a][r]) / gv
+            if not is_close(p[a][r], exp, TOL):
                 res.violate(f'row {r}: nested probability of alternative {a} differs from y_i exp(ln G_i) / G', {**case, 'alternative': a},
-                            rp['ok'][a][r], exp, where=w)
-                return
+                            p[a][r], exp, where=W_EULER)
+                return False
+    return True
+
+
+def rel_euler(ctx, res, rng):
+    """the three published pieces of the nested logit agree: P_i = y_i exp(ln G_i) / G(y)
+    (Euler: G is homogeneous of degree one)"""
+    case = gen_nested(rng, 'nested')
+    res.count({'rel': 'euler', 'case': case}, nontrivial=nontrivial(case))
+    res.tally('nested = y_i G_i / G')
+    rp = real_values(case)
+    g = real_generating(case)
+    lg = real_log_gi(case)
+    if 'err' in rp or 'err' in g or 'err' in lg:
+        res.violate(f'a nested-logit function raises on a valid specification: {rp.get("msg") or g.get("msg") or lg.get("msg")}', case,
+                    rp.get('msg') or g.get('msg') or lg.get('msg'), 'values', where=W_EULER)
+        return
+    euler_compare(res, case, rp['ok'], g['ok'], lg['ok'])
 
 
 def rel_scale_one(ctx, res, rng):
     fam = rng.choice(['nestedmu', 'cnlmu'])
-    case = gen_case(rng, fam)
+    case = gen_nested(rng, fam) if fam == 'nestedmu' else maybe_table(rng, gen_case(rng, fam))
     case['mu'] = {'v': 1.0, 'form': rng.choice(['num', 'beta_fixed', 'beta_free']), 'name': 'mu_top'}
-    if fam == 'cnlmu':
-        # the reduction is defined when every alternative of a nest can be reached (positive alpha)
-        for m in case['nests']['list']:
-            for t in m['alphas']:
-                if t[1] == 0.0:
-                    t[1] = 0.25
     base = {k: v for k, v in case.items() if k != 'mu'}
     base['family'] = 'nested' if fam == 'nestedmu' else 'cnl'
     res.count({'rel': 'scale_one', 'case': case}, nontrivial=nontrivial(case))
-    res.tally(f'{fam}(mu=1) = {base["family"]}')
+    res.tally(f'{fam}(mu=1) = {base["family"]}' + (f', {table_of(case)}' if fam == 'cnlmu' else ''))
     w = f'models.{fam} (mu = 1) vs unscaled'
-    compare_pair(res, f'{fam} with scale 1 vs {base["family"]}', case, base, w)
+    keep = {}
+    compare_pair(res, f'{fam} with scale 1 vs {base["family"]}', case, base, w, keep=keep)
     model_pair(ctx, res, 'scale one', case, base, w)
+    if fam == 'cnlmu' and table_of(case) != 'members only':
+        correspond(ctx, res, case, keep)
 
 
 def rel_tuple_syntax(ctx, res, rng):
     fam = rng.choice(['nested', 'nestedmu', 'cnl', 'cnlmu'])
-    case = gen_case(rng, fam)
+    case = gen_nested(rng, fam) if fam in ('nested', 'nestedmu') else maybe_table(rng, gen_case(rng, fam))
     variants = []
     for syn in ('object', 'tuple', 'object_bare'):
         c = copy.deepcopy(case)
@@ -265,6 +373,9 @@ def rel_tuple_syntax(ctx, res, rng):
                 res.violate(f'{fam}: overlapping nests are not refused alike in both syntaxes', bad, outs, ['BiogemeError', 'BiogemeError'], where=w)
 
 
+# --------------------------------------------------------------------------- generating function
+
+
 def real_generating(case, shifts=None):
     """value per row of the real generating function; `shifts` = {alt: constant added to V_alt}"""
     _quiet()
@@ -284,7 +395,8 @@ def real_generating(case, shifts=None):
         return {'err': core.exc_kind(e), 'msg': f'{type(e).__name__}: {e}'[:300]}
 
 
-def real_log_gi(case):
+def real_log_gi(case, alts=None):
+    """values per row of the published ln G_i (of the alternatives `alts`, default all)"""
     _quiet()
     from biogeme import models
     from biogeme.expressions import Numeric
@@ -295,7 +407,7 @@ def real_log_gi(case):
         av = mk_av(case)
         lg = models.get_mev_for_nested(V, av, mk_nests(case))
         out = {}
-        for a in case['alts']:
+        for a in (case['alts'] if alts is None else alts):
             e = lg[a]
             if not hasattr(e, 'get_value_c'):
                 e = Numeric(e)
@@ -305,39 +417,72 @@ def real_log_gi(case):
         return {'err': core.exc_kind(e), 'msg': f'{type(e).__name__}: {e}'[:300]}
 
 
-def check_generating(ctx, res, case, with_model=True):
-    """`ln G_i = log dG/dy_i` on the real code: central differences of the real G in y_i"""
-    res.count({'rel': 'generating', 'case': case}, nontrivial=nontrivial(case))
-    res.tally('generating function vs ln G_i')
-    g0 = real_generating(case)
-    lg = real_log_gi(case)
-    if 'err' in g0 or 'err' in lg:
-        res.violate(f'generating function / ln G_i raise on a valid nested specification: {g0.get("msg") or lg.get("msg")}',
-                    case, g0.get('msg') or lg.get('msg'), 'values', where=W_GEN)
-        return
+def gen_eval(case, alts=None, g_first=True):
+    """every real evaluation the generating-function clause needs: G, G with y_a (1 +- eps) for the
+    alternatives `alts`, ln G_a.  → {'g0', 'gp', 'gm', 'lg'} or {'err', 'msg', 'side', 'first'}"""
+    alts = list(case['alts'] if alts is None else alts)
+    out = {}
+
+    def ev_g():
+        g0 = real_generating(case)
+        if 'err' in g0:
+            return g0
+        out['g0'] = g0['ok']
+        out['gp'], out['gm'] = {}, {}
+        for a in alts:
+            gp = real_generating(case, {a: math.log1p(EPS)})
+            gm = real_generating(case, {a: math.log1p(-EPS)}) if 'err' not in gp else gp
+            if 'err' in gp or 'err' in gm:
+                return gp if 'err' in gp else gm
+            out['gp'][a], out['gm'][a] = gp['ok'], gm['ok']
+        return None
+
+    def ev_l():
+        lg = real_log_gi(case, alts)
+        if 'err' in lg:
+            return lg
+        out['lg'] = lg['ok']
+        return None
+
+    order = [('G', ev_g), ('lnG', ev_l)] if g_first else [('lnG', ev_l), ('G', ev_g)]
+    for k, (side, f) in enumerate(order):
+        e = f()
+        if e is not None:
+            return {'err': e['err'], 'msg': e['msg'], 'side': side, 'first': k == 0}
+    return out
+
+
+def gen_compare(res, case, ev, alts=None):
+    """`ln G_i = log dG/dy_i` on the real values: central differences of the real G in y_i"""
     in_nest = {a for m in case['nests']['list'] for a in m['alts']}
-    eps = 1e-5
-    for a in case['alts']:
-        gp = real_generating(case, {a: math.log1p(eps)})
-        gm = real_generating(case, {a: math.log1p(-eps)})
-        if 'err' in gp or 'err' in gm:
-            res.violate('generating function raises after a perturbation', case, gp.get('msg') or gm.get('msg'), 'values', where=W_GEN)
-            return
+    for a in (case['alts'] if alts is None else alts):
+        i = case['alts'].index(a)
         for r in range(case['rows']):
             V, av = row_view(case, r)
-            i = case['alts'].index(a)
             if a in in_nest and av is not None and av[i] == 0:
                 continue  # G_i = 0 by convention for an unavailable alternative; ln G_i is not read
             y = math.exp(V[i])
-            num = (gp['ok'][r] - gm['ok'][r]) / (2 * eps * y)
-            pub = safe_exp(lg['ok'][a][r])
+            num = (ev['gp'][a][r] - ev['gm'][a][r]) / (2 * EPS * y)
+            pub = safe_exp(ev['lg'][a][r])
             if not core.close(num, pub, rel=GRAD_TOL, abs_=GRAD_TOL):
                 res.violate(
                     f'row {r}: dG/dy_{a} of the published generating function (numerical: {num!r}) differs from exp(ln G_{a}) = {pub!r} '
                     f'({"alone alternative" if a not in in_nest else "member of a nest"})',
                     {**case, 'alternative': a}, num, pub, where=W_GEN)
-                return
+                return False
+    return True
+
+
+def check_generating(ctx, res, case, with_model=True):
+    res.count({'rel': 'generating', 'case': case}, nontrivial=nontrivial(case))
+    res.tally('generating function vs ln G_i')
+    ev = gen_eval(case)
+    if 'err' in ev:
+        res.violate(f'generating function / ln G_i raise on a valid nested specification: {ev["msg"]}', case, ev['msg'], 'values', where=W_GEN)
+        return
+    gen_compare(res, case, ev)
     if with_model:
+        g0, lg = ev['g0'], ev['lg']
         reqs = []
         for r in range(case['rows']):
             V, av = row_view(case, r)
@@ -347,23 +492,22 @@ def check_generating(ctx, res, case, with_model=True):
         def cb(ans):
             for r, a in enumerate(ans):
                 if 'error' in a:
-                    res.diverge('generating function: the model refuses', case, a, g0['ok'], where=W_GEN)
+                    res.diverge('generating function: the model refuses', case, a, g0, where=W_GEN)
                     return
-                if not is_close(b2f(a['G']), g0['ok'][r], TOL) or not is_close(b2f(a['Gy']), g0['ok'][r], TOL):
-                    res.diverge(f'value of the generating function, row {r}', case, [b2f(a['G']), b2f(a['Gy'])], g0['ok'][r], where=W_GEN)
+                if not is_close(b2f(a['G']), g0[r], TOL) or not is_close(b2f(a['Gy']), g0[r], TOL):
+                    res.diverge(f'value of the generating function, row {r}', case, [b2f(a['G']), b2f(a['Gy'])], g0[r], where=W_GEN)
                     return
                 for alt, x in zip(case['alts'], a['logG']):
-                    if x is not None and not is_close(b2f(x), lg['ok'][alt][r], TOL):
-                        res.diverge(f'ln G_{alt}, row {r}', case, b2f(x), lg['ok'][alt][r], where=W_GEN)
+                    if x is not None and not is_close(b2f(x), lg[alt][r], TOL):
+                        res.diverge(f'ln G_{alt}, row {r}', case, b2f(x), lg[alt][r], where=W_GEN)
                         return
 
         ctx.batch.add_many(reqs, cb)
 
 
 def rel_generating(ctx, res, rng):
-    case = gen_case(rng, 'nested')
+    case = gen_nested(rng, 'nested')
     check_generating(ctx, res, case)
-
 
 
 def rel_named_nests(ctx, res, rng):
@@ -402,13 +546,200 @@ def rel_named_nests(ctx, res, rng):
         m.pop('name', None)
     if compare_pair(res, f'{fam}: named / re-used nest objects vs legacy tuples', case, plain, w) is None:
         return
-    cnl = to_degenerate_cnl(rng, case, 'cnlmu' if scaled else 'cnl')
+    cnl = maybe_table(rng, to_degenerate_cnl(rng, case, 'cnlmu' if scaled else 'cnl'))
     cnl['nests'].pop('reuse', None)
-    compare_pair(res, f'{fam} with named / re-used nest objects vs cross-nested logit with alpha = 1', cnl, case, w, log_too=False)
+    compare_pair(res, f'{fam} with named / re-used nest objects vs cross-nested logit with alpha = 1 ({table_of(cnl)})', cnl, case, w, log_too=False)
     model_pair(ctx, res, 'named nests', case, plain, w)
     if not scaled:
-        check_generating(ctx, res, case)
+        check_generating(ctx, res, widen_av(rng, case))
 
+
+# --------------------------------------------------------------------------- missing-value codes (fresh interpreters)
+
+
+def gen_missing_code(rng, fam, all_one=False):
+    """a nested specification in which one or two members of a nest are unavailable on some rows and
+    carry the missing-value code in their own attribute there (as in real data sets: the
+    attributes of an alternative that does not exist for the respondent are coded 99999).
+    → case with 'missing' = those alternatives, or None"""
+    for _ in range(60):
+        case = gen_nested(rng, fam, k=rng.randint(3, 7))
+        if all_one:
+            case['nests'] = gen_nested_nests(rng, case['alts'], all_one=True)
+        if case['av'] is None:
+            continue
+        in_nest = {a for m in case['nests']['list'] for a in m['alts']}
+        rows = case['rows']
+        cands = [i for i, (a, s) in enumerate(zip(case['alts'], case['av']))
+                 if a in in_nest and any(av_value(s, r) == 0 for r in range(rows))]
+        if not cands:
+            continue
+        chosen = rng.sample(cands, rng.randint(1, min(2, len(cands))))
+        for i in chosen:
+            a = case['alts'][i]
+            col = f'M{a}'
+            case['cols'][col] = [MISSING if av_value(case['av'][i], r) == 0 else dyadic(rng, -2, 2) for r in range(rows)]
+            if rng.random() < 0.5:
+                case['util'][i] = {'k': 'var', 'col': col}
+            else:
+                case['util'][i] = {'k': 'lin', 'b': rng.choice([-1.5, -0.5, 0.25, 0.75, 1.25]), 'name': f'b_{a}', 'fixed': rng.randint(0, 1),
+                                   'col': col, 'c': dyadic(rng, -2, 2)}
+        case['missing'] = sorted(case['alts'][i] for i in chosen)
+        return case
+    return None
+
+
+def gen_iso_jobs(rng, n):
+    jobs = []
+    for _ in range(n):
+        # explicit scale one = unscaled, on the same rows; ln G_i / G / Euler for the alternatives whose attributes are known everywhere
+        case = gen_missing_code(rng, 'nested')
+        if case is not None:
+            mu = copy.deepcopy(case)
+            mu['family'] = 'nestedmu'
+            mu['mu'] = {'v': 1.0, 'form': rng.choice(['num', 'beta_fixed', 'beta_free']), 'name': 'mu_top'}
+            jobs.append({'what': 'nested vs nested_mev_mu with scale 1', 'a': case, 'b': mu, 'order': rng.choice(['ab', 'ba']),
+                         'gen_alts': [a for a in case['alts'] if a not in case['missing']]})
+        # all nest parameters one = logit
+        case = gen_missing_code(rng, 'nested', all_one=rng.random() < 0.7)
+        if case is not None:
+            if all(m['mu']['v'] == 1.0 for m in case['nests']['list']):
+                logit = {k: v for k, v in case.items() if k != 'nests'}
+                logit['family'] = 'logit'
+                jobs.append({'what': 'nested logit with all nest parameters 1 vs logit', 'a': case, 'b': logit, 'order': rng.choice(['ab', 'ba'])})
+            else:
+                tup = copy.deepcopy(case)
+                tup['nests']['syntax'] = 'tuple' if case['nests']['syntax'] != 'tuple' else 'object'
+                tup['nests'].pop('reuse', None)
+                for m in tup['nests']['list']:
+                    m.pop('name', None)
+                tup['nests']['choice_set'] = list(case['alts'])
+                jobs.append({'what': 'nested: legacy tuples vs nest objects', 'a': case, 'b': tup, 'order': rng.choice(['ab', 'ba'])})
+    return jobs
+
+
+def eval_side(case):
+    rp = real_values(case)
+    if 'err' in rp:
+        return rp
+    rl = real_values(case, log=True)
+    if 'err' in rl:
+        return rl
+    return {'p': rp['ok'], 'lp': rl['ok']}
+
+
+def run_job(job):
+    """one pair of real functions (and the generating-function clause on side a) in this interpreter.
+    An exception stops the worker (the engine keeps it): 'raised' = which side, first or second."""
+    a, b = job['a'], job['b']
+    sides = [('a', a), ('b', b)] if job['order'] == 'ab' else [('b', b), ('a', a)]
+    vals = {}
+    for k, (name, c) in enumerate(sides):
+        v = eval_side(c)
+        if 'err' in v:
+            return {'stop': True, 'raised': name, 'first': k == 0, 'msg': v['msg'], 'viol': []}
+        vals[name] = v
+    r = Result()
+    case = {'a': a, 'b': b, 'isolated': True, 'gen_alts': job.get('gen_alts')}
+    done = False
+    for key, label in (('p', ''), ('lp', 'log ')):
+        for alt in a['alts']:
+            for row in range(a['rows']):
+                x, y = vals['a'][key][alt][row], vals['b'][key][alt][row]
+                if not done and not is_close(x, y, TOL):
+                    r.violate(f'{job["what"]}: {label}probability of alternative {alt}, row {row}', case, x, y, where=W_MISSING)
+                    done = True
+    if not done and job.get('gen_alts'):
+        ev = gen_eval(a, job['gen_alts'], g_first=job['order'] == 'ab')
+        if 'err' in ev:
+            return {'stop': True, 'raised': ev['side'], 'first': ev['first'], 'msg': ev['msg'], 'viol': [], 'gen': True}
+        # violations of the generating clause carry the pair, so that the replay goes through a fresh interpreter
+        r2 = Result()
+        if gen_compare(r2, a, ev, job['gen_alts']):
+            euler_compare(r2, a, vals['a']['p'], ev['g0'], ev['lg'], job['gen_alts'])
+        for v in r2.violations:
+            r.violate(v['what'], {**case, 'alternative': v['case'].get('alternative')}, v['observed'], v['expected'], where=v['where'])
+    return {'viol': r.violations}
+
+
+def iso_worker(payload):
+    """entry point of the fresh interpreter"""
+    out = []
+    with core.scratch():
+        for job in payload['jobs']:
+            r = run_job(job)
+            out.append(r)
+            if r.get('stop'):
+                break
+    return {'results': out}
+
+
+def flip(order):
+    return 'ba' if order == 'ab' else 'ab'
+
+
+def run_isolated_jobs(res, jobs, max_launch=8):
+    """run the jobs in fresh interpreters.  When the side evaluated first raises, nothing is known
+    about the other side (the engine is poisoned): the job is run again, other side first; a side
+    that raises where the other one gives values is a violation, two sides that both raise are not
+    (consistent).  → number of jobs evaluated to the end"""
+    pending = [dict(j) for j in jobs]
+    launches = finished = 0
+    while pending and launches < max_launch and len(res.violations) <= 20:
+        launches += 1
+        out = core.run_isolated('props.c06', 'iso_worker', {'jobs': pending}, timeout=900)
+        if '__error__' in out:
+            if out['__error__'] == 'timeout' or len(pending) == 1:
+                if out['__error__'] != 'timeout':
+                    j = pending[0]
+                    res.violate(f'{j["what"]}: the interpreter died while the real code evaluated this case ({out["__error__"]})',
+                                {'a': j['a'], 'b': j['b'], 'isolated': True, 'gen_alts': j.get('gen_alts')}, out.get('stderr', '')[-300:], 'values',
+                                where='process crash')
+                else:
+                    res.notes.append('isolated stream: timeout of a fresh interpreter, remaining cases skipped')
+                break
+            # which case killed the interpreter?  one by one, a few of them
+            head, pending = pending[:4], []
+            for j in head:
+                run_isolated_jobs(res, [j], max_launch=2)
+            res.notes.append('isolated stream: a fresh interpreter died, first cases re-run one by one, the others skipped')
+            break
+        results = out['results']
+        k = len(results)
+        for r in results:
+            for v in r.get('viol', []):
+                res.violate(v['what'], v['case'], v['observed'], v['expected'], where=v['where'])
+        finished += sum(1 for r in results if not r.get('stop'))
+        nxt = []
+        last = results[-1] if results else None
+        if last and last.get('stop'):
+            job = pending[k - 1]
+            side = last['raised']
+            label = {'a': f'the {job["a"]["family"]} side', 'b': f'the {job["b"]["family"]} side ({job["b"].get("nests", {}).get("syntax", "")})',
+                     'G': 'get_mev_generating_for_nested', 'lnG': 'get_mev_for_nested'}[side]
+            case = {'a': job['a'], 'b': job['b'], 'isolated': True, 'gen_alts': job.get('gen_alts')}
+            if not last['first']:
+                res.violate(f'{job["what"]}: {label} raises where the other one gives values, on rows where only unavailable alternatives '
+                            f'carry the missing-value code: {last["msg"]}', case, last['msg'], 'values', where=W_MISSING)
+            elif job.get('retried'):
+                res.tally('isolated: both sides raise (no verdict)')
+            else:
+                nxt = [dict(job, order=flip(job['order']), retried=True)]
+        pending = nxt + pending[k:]
+    return finished
+
+
+def rel_missing_codes(ctx, res, rng, n):
+    jobs = gen_iso_jobs(rng, n)
+    for j in jobs:
+        res.count({'rel': 'missing_code', 'case': j['a'], 'what': j['what']}, nontrivial=True)
+        res.tally('missing-value code on unavailable members: ' + j['what'])
+        model_pair(ctx, res, j['what'], j['a'], j['b'], W_MISSING)
+    done = run_isolated_jobs(res, jobs)
+    res.tally('missing-value code: pairs evaluated to the end', done)
+
+
+# --------------------------------------------------------------------------- corpus
 
 # F07 (fixed in the repository): an alone alternative in the generating function
 CORPUS_GEN = [
@@ -426,24 +757,68 @@ CORPUS_GEN = [
      'av': [{'k': 'num', 'v': 1}, {'k': 'col', 'vals': [1, 0]}, {'k': 'num', 'v': 1}, {'k': 'num', 'v': 1}, {'k': 'col', 'vals': [0, 1]}],
      'nests': {'syntax': 'object', 'choice_set': [1, 2, 3, 4, 5], 'reuse': True,
                'list': [{'mu': {'v': 1.625, 'form': 'num', 'name': 'ma'}, 'alts': [1, 2]}, {'mu': {'v': 2.75, 'form': 'num', 'name': 'mb'}, 'alts': [4, 5]}]}},
+    # availability indicators that are counts (0/1/2/3): non-zero = available
+    {'family': 'nested', 'alts': [1, 2, 3, 4], 'rows': 3, 'cols': {'X0': [0.5, -1.0, 0.25], 'X1': [1.0, 0.25, -0.5], 'X2': [-0.5, 0.75, 1.5]},
+     'util': [{'k': 'var', 'col': 'X0'}, {'k': 'var', 'col': 'X1'}, {'k': 'var', 'col': 'X2'}, {'k': 'num', 'c': 0.5}],
+     'av': [{'k': 'num', 'v': 1}, {'k': 'col', 'vals': [1, 0, 3]}, {'k': 'col', 'vals': [2, 1, 0]}, {'k': 'num', 'v': 1}],
+     'nests': {'syntax': 'object', 'choice_set': [1, 2, 3, 4], 'list': [{'mu': {'v': 1.75, 'form': 'beta_free', 'name': 'm'}, 'alts': [2, 3]}]}},
 ]
 
+_U5 = [{'k': 'var', 'col': 'X0'}, {'k': 'lin', 'b': 0.75, 'name': 'b', 'fixed': 0, 'col': 'X1', 'c': 0.25}, {'k': 'var', 'col': 'X2'}, {'k': 'num', 'c': 0.5},
+       {'k': 'beta', 'b': -0.25, 'name': 'asc_5', 'fixed': 0}]
+_C5 = {'X0': [0.5, -1.0], 'X1': [1.0, 0.25], 'X2': [-0.5, 0.75]}
+_AV5 = [{'k': 'num', 'v': 1}, {'k': 'col', 'vals': [1, 0]}, {'k': 'col', 'vals': [0, 1]}, {'k': 'num', 'v': 1}, {'k': 'col', 'vals': [1, 1]}]
+
+
+def _full_table(fam, av, mu=None):
+    """two nests [1,2], [3,4], alternative 5 outside every nest, memberships as a full table"""
+    ma, mb = {'v': 1.5, 'form': 'beta_free', 'name': 'mu_a'}, {'v': 2.5, 'form': 'num', 'name': 'mu_b'}
+    cnl = {'family': fam, 'alts': [1, 2, 3, 4, 5], 'rows': 2, 'cols': _C5, 'util': _U5, 'av': av,
+           'nests': {'syntax': 'object', 'choice_set': [1, 2, 3, 4, 5], 'table': 'full', 'list': [
+               {'mu': ma, 'alphas': [[1, 1.0, 'num'], [2, 1.0, 'num'], [3, 0.0, 'num'], [4, 0.0, 'num'], [5, 0.0, 'num']]},
+               {'mu': mb, 'alphas': [[1, 0.0, 'num'], [2, 0.0, 'num'], [3, 1.0, 'num'], [4, 1.0, 'beta'], [5, 0.0, 'num']]}]}}
+    nested = {'family': 'nestedmu' if mu else 'nested', 'alts': [1, 2, 3, 4, 5], 'rows': 2, 'cols': _C5, 'util': _U5, 'av': av,
+              'nests': {'syntax': 'object', 'choice_set': [1, 2, 3, 4, 5], 'list': [{'mu': ma, 'alts': [1, 2]}, {'mu': mb, 'alts': [3, 4]}]}}
+    if mu:
+        cnl['mu'] = nested['mu'] = {'v': mu, 'form': 'num', 'name': 'mu_top'}
+    return cnl, nested
+
+
+# (cross-nested logit, full table) vs (nested logit): F-C06-1 (fixed in the repository) and the shape of the Swissmetro examples
+CORPUS_TABLE = [_full_table('cnl', None), _full_table('cnl', _AV5), _full_table('cnlmu', None, 1.0), _full_table('cnlmu', _AV5, 1.0), _full_table('cnlmu', _AV5, 1.75)]
+
 RELATIONS = [rel_mu_one, rel_cnl_degenerate, rel_cnl_single_nest, rel_scale_one, rel_tuple_syntax, rel_generating, rel_euler, rel_named_nests]
+
+
+def check_corpus(ctx, res):
+    for c in CORPUS_GEN:
+        check_generating(ctx, res, c)
+        res.tally('corpus')
+    w = 'models.cnl (each alternative wholly in one nest) vs models.nested'
+    for cnl, nested in CORPUS_TABLE:
+        res.count({'rel': 'cnl_degenerate', 'case': cnl}, nontrivial=True)
+        res.tally('corpus')
+        keep = {}
+        compare_pair(res, f'{cnl["family"]} with whole memberships written as a full table vs nested logit', cnl, nested, w, keep=keep)
+        correspond(ctx, res, cnl, keep)
+        if cnl.get('mu', {}).get('v') == 1.0:
+            base = {k: v for k, v in cnl.items() if k != 'mu'}
+            base['family'] = 'cnl'
+            compare_pair(res, 'cnlmu with scale 1 vs cnl (full table)', cnl, base, 'models.cnlmu (mu = 1) vs unscaled')
 
 
 def check(ctx) -> Result:
     res = Result(rule=RULE, tolerance=f'pairs of real functions: {TOL} relative; numerical gradient: {GRAD_TOL}')
     rng = ctx.rng
     with core.scratch():
-        for c in CORPUS_GEN:
-            check_generating(ctx, res, c)
-            res.tally('corpus')
+        check_corpus(ctx, res)
         n = ctx.n(24, 520)
         for _ in range(n):
             for rel in RELATIONS:
                 rel(ctx, res, rng)
             if len(res.violations) > 20:
                 break
+        rel_missing_codes(ctx, res, rng, ctx.n(12, 150))
         ctx.batch.flush()
     return res
 
@@ -465,6 +840,8 @@ def search(ctx, res, broken):
                 rel(C2, r2, rng)
             if r2.violations:
                 break
+        if not r2.violations:
+            rel_missing_codes(C2, r2, rng, 20)
     res.violations.extend(r2.violations[:3])
 
 
@@ -473,11 +850,21 @@ def replay(ctx, obj):
     out = {'replayed': obj.get('what')}
     r = Result()
     with core.scratch():
-        if 'a' in case and 'b' in case:
+        if case.get('isolated') and 'a' in case and 'b' in case:
+            job = {'what': obj.get('what', 'relation'), 'a': case['a'], 'b': case['b'], 'order': 'ab', 'gen_alts': case.get('gen_alts')}
+            run_isolated_jobs(r, [job])
+        elif 'a' in case and 'b' in case:
             compare_pair(r, obj.get('what', 'relation'), case['a'], case['b'], obj.get('where', ''))
         elif case.get('family') == 'nested' and 'nests' in case:
             case = {k: v for k, v in case.items() if k != 'alternative'}
-            check_generating(ctx, r, case, with_model=False)
+            if obj.get('where') == W_EULER:
+                rp, g, lg = real_values(case), real_generating(case), real_log_gi(case)
+                if 'err' in rp or 'err' in g or 'err' in lg:
+                    r.violate('a nested-logit function raises', case, rp.get('msg') or g.get('msg') or lg.get('msg'), 'values', where=W_EULER)
+                else:
+                    euler_compare(r, case, rp['ok'], g['ok'], lg['ok'])
+            else:
+                check_generating(ctx, r, case, with_model=False)
         else:
             out.update({'property_fails': False, 'note': 'nothing to replay (no concrete failing input in this file)'})
             return out
